@@ -78,6 +78,7 @@ type leaseFacade struct {
 	// has not seen its result yet
 	delReplyLost int32 // the reply of the next Delete is lost (the Delete itself is applied)
 	holdDelReply  int32 // the next Delete takes effect at once, its reply arrives delReplyDelay later
+	casLatency    int64 // nanoseconds every CasByVersion takes before it is served
 	delReplyDelay time.Duration
 	holdDel      int32 // the next Delete is held back before it reaches the store
 	delArrived   chan struct{}
@@ -119,6 +120,15 @@ func (f *leaseFacade) CasByVersion(ctx context.Context, r kvs.Record) (kvs.Recor
 	if fa := atomic.LoadInt32(&f.faultAt); (n == fa || f.faultPair && n == fa+1 || f.faultOdd && n%2 == 1) && f.faultKnd == "lost" {
 		f.s.log(map[string]any{"e": "cas", "p": f.p, "res": "lost", "exp": 0, "n": n})
 		return kvs.Record{}, errInjected
+	}
+	if lat := time.Duration(atomic.LoadInt64(&f.casLatency)); lat > 0 {
+		// a store that takes its time to answer, and gives a call up when the caller's context ends meanwhile
+		select {
+		case <-time.After(lat):
+		case <-ctx.Done():
+			f.s.log(map[string]any{"e": "cas", "p": f.p, "res": "ctxdone", "exp": 0, "n": n})
+			return kvs.Record{}, ctx.Err()
+		}
 	}
 	if err := ctx.Err(); err != nil {
 		// a store that looks at the caller's context first, as every network client does: nothing reaches it
@@ -266,6 +276,7 @@ type leaseScenario struct {
 	Pair    bool   // the fault hits two consecutive renewal calls
 	Mix     int    // lease lengths of the other parties: 0 same, 1 three times longer, 2 four times shorter
 	Distant bool   // an unrelated, much later timer is pending (and the dispatcher asleep towards it) when the lock is acquired
+	SlowCas bool   // the store serves every renewal only after 3/16 of a lease period (well before the lease runs out)
 	CtxAcq  bool   // the holder acquires through LockWithCtx and its context ends right after the lock was granted (the usual
 	// "wait at most so long for the lock" idiom): the lock is held until Unlock all the same, its lease is kept
 	Down    bool   // the holder's provider is shut down while the lock is held; the next renewal then fails transiently
@@ -291,6 +302,9 @@ func runLeaseScenario(sc leaseScenario) (*leaseSys, bool) {
 		time.Sleep(30 * time.Millisecond) // let the dispatcher go to sleep towards it
 	}
 	holderDown := false
+	if sc.SlowCas {
+		atomic.StoreInt64(&holder.fac.casLatency, int64(sc.TTL*3/16))
+	}
 	if sc.CtxAcq {
 		cctx, ccancel := context.WithTimeout(context.Background(), 5*time.Second)
 		err := holder.locker.LockWithCtx(cctx)
@@ -870,6 +884,7 @@ func driveLease(opt *Options) error {
 			scs = append(scs, leaseScenario{Kind: "handoff", TTL: ttl, Phase: 6, Mix: 2})
 			scs = append(scs, leaseScenario{Kind: "hold", TTL: ttl, Periods: 5, Down: true})
 			scs = append(scs, leaseScenario{Kind: "hold", TTL: ttl, Periods: 4, CtxAcq: true})
+			scs = append(scs, leaseScenario{Kind: "hold", TTL: ttl, Periods: 4, SlowCas: true})
 			scs = append(scs, leaseScenario{Kind: "slowreply", TTL: ttl, Periods: 1, Phase: 3})
 			scs = append(scs, leaseScenario{Kind: "unlockmid", TTL: ttl})
 			scs = append(scs, leaseScenario{Kind: "sharedhandoff", TTL: ttl, Phase: 2})
